@@ -1,8 +1,10 @@
 (* C10 — symbolic parameters behave exactly like the values they stand for.
-   Only statements, closed by `exact`, each followed by its axiom audit. *)
+   Only statements, closed by `exact`, each followed by its axiom audit, plus Examples showing that the
+   hypotheses are satisfiable.  Scalars K and all operations on them (including the elementary-function
+   table fn1/fn2) are universally quantified: every theorem holds for the reals with the real functions. *)
 From Coq Require Import List Arith Bool.
 Import ListNotations.
-From SFV Require Import C10.Model C10.Proofs.
+From SFV Require Import C10.Model C10.Proofs C10.Engine C10.EngineProofs C10.Decomp.
 
 Section C10.
 Variable K : Type.
@@ -10,9 +12,128 @@ Variables (kadd kmul kdiv : K -> K -> K) (kneg : K -> K) (kone : K).
 Variable fn1 : nat -> K -> K.
 Variable fn2 : nat -> K -> K -> K.
 Notation ev := (@ev K kadd kmul kdiv kneg kone fn1 fn2).
+Notation run_seg := (@run_seg K kadd kmul kdiv kneg kone fn1 fn2).
+Notation run_segs := (@run_segs K kadd kmul kdiv kneg kone fn1 fn2).
 
+(* substituting numbers for (some or all) free / measured atoms commutes with evaluation *)
 Theorem C10_subst_eval : forall rho sf sm (e : expr K),
   ev rho (subst sf sm e) = ev (env_override rho sf sm) e.
 Proof. exact (subst_eval kadd kmul kdiv kneg kone fn1 fn2). Qed.
+
+(* ParameterError exactly when some atom of the expression is unbound-without-default / unmeasured:
+   nothing defaults silently, nothing bound raises *)
+Theorem C10_no_silent_default : forall rho (e : expr K),
+  ev rho e = ParamErr <-> exists a, In a (atoms e) /\ bound rho a = false.
+Proof. exact (ev_parerr_iff kadd kmul kdiv kneg kone fn1 fn2). Qed.
+
+(* par_regref_deps returns exactly the measured atoms ... *)
+Theorem C10_deps_exact : forall (e : expr K) k, In k (deps e) <-> In (AMeas k) (atoms e).
+Proof. exact (deps_exact kadd kmul kdiv kneg kone fn1 fn2). Qed.
+
+(* ... and the value of a parameter depends on nothing else of the measured store (what scheduling uses) *)
+Theorem C10_eval_depends_only_on_deps : forall rho rho' (e : expr K),
+  (forall n, In n (frees e) -> efree rho n = efree rho' n) ->
+  (forall k, In k (deps e) -> emeas rho k = emeas rho' k) ->
+  ev rho e = ev rho' e.
+Proof. exact (ev_frame kadd kmul kdiv kneg kone fn1 fn2). Qed.
+
+(* for every history of measure / re-prepare / use / reset events of one program, the store holds the most
+   recent outcome of every mode ... *)
+Theorem C10_latest : forall free h (s : store K) k,
+  fst (run_seg free s h) k = latest h k (s k).
+Proof. exact (latest_store kadd kmul kdiv kneg kone fn1 fn2). Qed.
+
+(* ... every use evaluates its parameter under the most recent outcomes at that point of the history ... *)
+Theorem C10_use_sees_latest : forall free h1 e h2 (s : store K),
+  snd (run_seg free s (h1 ++ EUse e :: h2)) =
+  snd (run_seg free s h1) ++ ev (mkEnv free (fun k => latest h1 k (s k))) e
+    :: snd (run_seg free (fst (run_seg free s h1)) h2).
+Proof. exact (use_sees_latest kadd kmul kdiv kneg kone fn1 fn2). Qed.
+
+(* ... and a use of mode k's outcome before any measurement of k (or after a reset) raises ParameterError *)
+Theorem C10_use_before_measure : forall free h1 e h2 (s : store K) k,
+  In k (deps e) -> latest h1 k (s k) = None ->
+  nth_error (snd (run_seg free s (h1 ++ EUse e :: h2))) (length (snd (run_seg free s h1))) = Some ParamErr.
+Proof. exact (use_before_measure kadd kmul kdiv kneg kone fn1 fn2). Qed.
+
+(* several program segments on one engine: if the whole store is handed to the next segment, running them
+   one after the other is running their concatenation (so C10_latest etc. hold across segments) *)
+Theorem C10_segments_ideal : forall free segs (s : store K),
+  run_segs (@fwd_ideal K) free s segs = run_seg free s (concat segs).
+Proof. exact (segs_ideal kadd kmul kdiv kneg kone fn1 fn2). Qed.
+
+(* REFUTED for the hand-over as written in BaseEngine._run (`for k, v in enumerate(self.samples)`):
+   a value measured on mode 1 is lost (ParameterError where the concatenated program evaluates to x) ... *)
+Theorem C10_segments_as_written_refuted : forall free (x : K),
+  run_segs (@fwd_written K) free (@empty K) [[EMeas [1] [[x]]]; [EUse (Meas 1)]] = (upd (@empty K) 0 [x], [ParamErr])
+  /\ snd (run_seg free (@empty K) (concat [[EMeas [1] [[x]]]; [EUse (Meas 1)]])) = [Ok (S x)].
+Proof. exact (segs_written_loses kadd kmul kdiv kneg kone fn1 fn2). Qed.
+
+(* ... and mode 0's parameter silently evaluates to mode 1's outcome where ParameterError is due *)
+Theorem C10_segments_as_written_wrong_mode_refuted : forall free (x : K),
+  snd (run_segs (@fwd_written K) free (@empty K) [[EMeas [1] [[x]]]; [EUse (Meas 0)]]) = [Ok (S x)]
+  /\ snd (run_seg free (@empty K) (concat [[EMeas [1] [[x]]]; [EUse (Meas 0)]])) = [ParamErr].
+Proof. exact (segs_written_wrong_mode kadd kmul kdiv kneg kone fn1 fn2). Qed.
+
+(* Program.bind_params raises for an unknown name and only then ... *)
+Theorem C10_bind_unknown_raises : forall b (fs : fstore K),
+  snd (bind_params fs b) = true <-> Forall (fun nv => fs (fst nv) <> None) b.
+Proof. exact (@bind_ok_iff K). Qed.
+
+(* ... a bound name evaluates to the bound value (not to its default), other parameters are untouched *)
+Theorem C10_bind_value : forall b (fs : fstore K) n v,
+  NoDup (map fst b) -> In (n, v) b -> snd (bind_params fs b) = true ->
+  free_env (fst (bind_params fs b)) n = Some v.
+Proof. exact (@bind_value K). Qed.
+
+Theorem C10_bind_frame : forall b (fs : fstore K) m,
+  ~ In m (map fst b) -> fst (bind_params fs b) m = fs m.
+Proof. exact (@bind_other K). Qed.
+
+(* decomposition commutes with evaluation, for every entry of the table (Xgate, Zgate, Pgate, MZgate,
+   sMZgate, S2gate, CXgate, CZgate, Fouriergate, DisplacedSqueezed), daggered or not *)
+Theorem C10_decomp_commutes : forall (cval : nat -> K) rho (ge : gate (expr K)) (gv : gate K),
+  eval_gate kadd kmul kdiv kneg kone fn1 fn2 rho ge = inj_gate gv ->
+  option_map (map (eval_gate kadd kmul kdiv kneg kone fn1 fn2 rho)) (decomp_sym cval ge)
+  = option_map (map (@inj_gate K)) (decomp_num kadd kmul kdiv kneg kone fn1 fn2 cval gv).
+Proof. exact (@decomp_commutes K kadd kmul kdiv kneg kone fn1 fn2). Qed.
+
 End C10.
 Print Assumptions C10_subst_eval.
+Print Assumptions C10_no_silent_default.
+Print Assumptions C10_deps_exact.
+Print Assumptions C10_eval_depends_only_on_deps.
+Print Assumptions C10_latest.
+Print Assumptions C10_use_sees_latest.
+Print Assumptions C10_use_before_measure.
+Print Assumptions C10_segments_ideal.
+Print Assumptions C10_segments_as_written_refuted.
+Print Assumptions C10_segments_as_written_wrong_mode_refuted.
+Print Assumptions C10_bind_unknown_raises.
+Print Assumptions C10_bind_value.
+Print Assumptions C10_bind_frame.
+Print Assumptions C10_decomp_commutes.
+
+(* The hypotheses are satisfiable (instances over K := nat with + * / -): *)
+Example C10_ex_unbound :
+  ev Nat.add Nat.mul Nat.div (fun x => x) 1 (fun _ x => x) (fun _ x _ => x)
+     (mkEnv (fun _ => None) (fun k => if Nat.eqb k 0 then Some [7] else None)) (Add (Meas 0) (Free 3)) = ParamErr.
+Proof. reflexivity. Qed.
+
+Example C10_ex_use_before_measure :
+  In 2 (deps (Mul (Meas 2) (Const (S 3)))) /\ latest [EPrep 2; EMeas [0] [[5]]] 2 (@empty nat 2) = None.
+Proof. split; [simpl; auto | reflexivity]. Qed.
+
+Example C10_ex_remeasure :
+  snd (run_seg Nat.add Nat.mul Nat.div (fun x => x) 1 (fun _ x => x) (fun _ x _ => x) (fun _ => None) (@empty nat)
+         [EMeas [0] [[5]]; EUse (Meas 0); EPrep 0; EMeas [0] [[9]]; EUse (Add (Meas 0) (Const (S 1)))])
+  = [Ok (S 5); Ok (S 10)].
+Proof. reflexivity. Qed.
+
+Example C10_ex_decomp_hypothesis :
+  let rho := mkEnv (fun n => if Nat.eqb n 0 then Some (S 6) else None) (fun _ => None) in
+  eval_gate Nat.add Nat.mul Nat.div (fun x => x) 1 (fun _ x => x) (fun _ x _ => x) rho (mkG 1 [Free 0] [0] true)
+  = inj_gate (mkG 1 [6] [0] true)
+  /\ option_map (map (@inj_gate nat)) (decomp_num Nat.add Nat.mul Nat.div (fun x => x) 1 (fun _ x => x) (fun _ x _ => x) (fun c => c + 1) (mkG 1 [6] [0] true))
+     = Some [mkG 0 [Ok (S 3); Ok (S 1)] [0] true].
+Proof. split; reflexivity. Qed.
